@@ -88,25 +88,27 @@ theorem find_updTree (trees : List TreeImg) (k : Nat) (f : TreeImg → TreeImg) 
 
 /-! ### the class -/
 
-structure CG (p0 : PImg) (live : Nat) (allowed covered : List Nat) (nd : Nat) (p : PImg) : Prop where
+structure CG (p0 : PImg) (live : Nat) (allowed covered : List Nat) (lo nd : Nat) (p : PImg) : Prop where
   i2e : p.i2e = p0.i2e
   cat : p.cat = p0.cat
   idx : p.idx = p0.idx
   hdr : SameKey p0.hdr p.hdr
+  lond : lo ≤ nd
   np : nd ≤ p.hdr.nextPage
+  bmlo : nd ≤ p.bm
   len : p0.len ≤ p.len
-  segOld : ∀ k, k < p0.hdr.nextPage → segFind p k = segFind p0 k
+  segOld : ∀ k, k < lo → segFind p k = segFind p0 k
   segKeys : ∀ s ∈ p.segs, s.key < nd
   treeKeys : ∀ t ∈ p.trees, t.key < nd
   treeLive : live ≠ 0 → ∃ t, treeFind p live = some t ∧ TreeOK allowed covered t
 
 /-- operations that keep an image inside the class -/
-def CEff (p0 : PImg) (live : Nat) (allowed covered : List Nat) (nd : Nat) : PEff → Prop
+def CEff (p0 : PImg) (live : Nat) (allowed covered : List Nat) (lo nd : Nat) : PEff → Prop
   | .setLen _ => True
-  | .bitmap => True
+  | .bitmap top => nd ≤ top
   | .stats => True
   | .hdr pm => SameKey p0.hdr pm ∧ nd ≤ pm.nextPage
-  | .segPart k _ _ _ => p0.hdr.nextPage ≤ k ∧ k < nd
+  | .segPart k _ _ _ => lo ≤ k ∧ k < nd
   | .treeNew k => k ≠ live ∧ k < nd
   | .blob _ _ => True
   | .leaf k i es sib _ => k ≠ live ∨ (i = 0 ∧ sib = false ∧
@@ -119,12 +121,12 @@ theorem treeOK_blob {allowed covered : List Nat} {t : TreeImg} (h : TreeOK allow
   obtain ⟨xs, pid, h1, h2, h3, h4⟩ := h.shape
   exact ⟨⟨xs, pid, h1, h2, h3, fun q' hq' => ⟨(h4 q' hq').1, List.mem_cons_of_mem _ (h4 q' hq').2⟩⟩, h.noinode⟩
 
-theorem cg_applyEff {p0 : PImg} {live nd : Nat} {allowed covered : List Nat} {p : PImg} {e : PEff}
-    (h : CG p0 live allowed covered nd p) (he : CEff p0 live allowed covered nd e) :
-    CG p0 live allowed covered nd (applyEff e p) := by
+theorem cg_applyEff {p0 : PImg} {live lo nd : Nat} {allowed covered : List Nat} {p : PImg} {e : PEff}
+    (h : CG p0 live allowed covered lo nd p) (he : CEff p0 live allowed covered lo nd e) :
+    CG p0 live allowed covered lo nd (applyEff e p) := by
   cases e <;> simp only [CEff] at he
   case setLen n => exact { h with len := Nat.le_trans h.len (Nat.le_max_left _ _) }
-  case bitmap => exact h
+  case bitmap top => exact { h with bmlo := he }
   case stats => exact h
   case hdr pm => exact { h with hdr := he.1, np := he.2 }
   case segPart k j need es =>
@@ -185,23 +187,23 @@ theorem cg_applyEff {p0 : PImg} {live nd : Nat} {allowed covered : List Nat} {p 
     have hk : ¬ t.key = k := by rw [htk]; exact fun h' => he h'.symm
     exact ⟨t, by simpa [treeFind, applyEff, hk] using this, hok⟩
 
-theorem ceff_torn {p0 : PImg} {live nd : Nat} {allowed covered : List Nat} {p : PImg} {e e' : PEff}
-    (he : CEff p0 live allowed covered nd e) (hl : isLiveLeaf live e = false) (ht : tornEff p e = some e') :
-    CEff p0 live allowed covered nd e' := by
+theorem ceff_torn {p0 : PImg} {live lo nd : Nat} {allowed covered : List Nat} {p : PImg} {e e' : PEff}
+    (he : CEff p0 live allowed covered lo nd e) (hl : isLiveLeaf live e = false) (ht : tornEff p e = some e') :
+    CEff p0 live allowed covered lo nd e' := by
   cases e <;> simp only [CEff] at he <;> simp only [tornEff, Option.some.injEq] at ht <;> try (subst ht; simpa [CEff] using he)
   case leaf k i es sib pid =>
     have hne : k ≠ live := by simpa [isLiveLeaf] using hl
     split at ht <;> (try split at ht) <;> simp only [Option.some.injEq] at ht <;> subst ht <;> exact Or.inl hne
 
 /-- steps that keep every image of the class -/
-def CStepOK (p0 : PImg) (live : Nat) (allowed covered : List Nat) (nd : Nat) : Step → Prop
-  | .pg e _ => CEff p0 live allowed covered nd e
+def CStepOK (p0 : PImg) (live : Nat) (allowed covered : List Nat) (lo nd : Nat) : Step → Prop
+  | .pg e _ => CEff p0 live allowed covered lo nd e
   | .ps => True
   | _ => False
 
-theorem allImgsL_cstep {p0 : PImg} {live nd : Nat} {allowed covered : List Nat} (fs : FS) (s : Step)
-    (h : AllImgsL live fs (CG p0 live allowed covered nd)) (hs : CStepOK p0 live allowed covered nd s) :
-    AllImgsL live (fs.step s) (CG p0 live allowed covered nd) := by
+theorem allImgsL_cstep {p0 : PImg} {live lo nd : Nat} {allowed covered : List Nat} (fs : FS) (s : Step)
+    (h : AllImgsL live fs (CG p0 live allowed covered lo nd)) (hs : CStepOK p0 live allowed covered lo nd s) :
+    AllImgsL live (fs.step s) (CG p0 live allowed covered lo nd) := by
   cases s <;> simp only [CStepOK] at hs
   case pg e pid =>
     apply allImgsL_pg live fs _ e pid h
@@ -209,32 +211,34 @@ theorem allImgsL_cstep {p0 : PImg} {live nd : Nat} {allowed covered : List Nat} 
     exact ⟨cg_applyEff hp hs, fun hl e' ht => cg_applyEff hp (ceff_torn hs hl ht)⟩
   case ps => exact allImgsL_ps live fs _ (allImgsL_pv live fs _ h)
 
-theorem cstep_block {p0 : PImg} {live nd : Nat} {allowed covered : List Nat} (S : List Step) :
-    ∀ (fs : FS), AllImgsL live fs (CG p0 live allowed covered nd) → (∀ s ∈ S, CStepOK p0 live allowed covered nd s) →
-      SafeAlong (fun fs => AllImgsL live fs (CG p0 live allowed covered nd)) fs S := by
+theorem cstep_block {p0 : PImg} {live lo nd : Nat} {allowed covered : List Nat} (S : List Step) :
+    ∀ (fs : FS), AllImgsL live fs (CG p0 live allowed covered lo nd) → (∀ s ∈ S, CStepOK p0 live allowed covered lo nd s) →
+      SafeAlong (fun fs => AllImgsL live fs (CG p0 live allowed covered lo nd)) fs S := by
   induction S with
   | nil => intro fs h _; exact safeAlong_nil h
   | cons s S ih =>
     intro fs h hs
     exact safeAlong_cons h (ih _ (allImgsL_cstep fs s h (hs s (by simp))) (fun s' hs' => hs s' (by simp [hs'])))
 
-theorem cstep_pagerStep {p0 : PImg} {live nd : Nat} {allowed covered : List Nat} {s : Step}
-    (h : CStepOK p0 live allowed covered nd s) : PagerStep s := by
+theorem cstep_pagerStep {p0 : PImg} {live lo nd : Nat} {allowed covered : List Nat} {s : Step}
+    (h : CStepOK p0 live allowed covered lo nd s) : PagerStep s := by
   cases s <;> simp [CStepOK] at h <;> trivial
 
-theorem CG.raise {p0 : PImg} {live nd nd' : Nat} {allowed covered : List Nat} {p : PImg}
-    (h : CG p0 live allowed covered nd p) (h1 : nd ≤ nd') (h2 : nd' ≤ p.hdr.nextPage) : CG p0 live allowed covered nd' p :=
-  { h with np := h2, segKeys := fun s hs => Nat.lt_of_lt_of_le (h.segKeys s hs) h1,
+theorem CG.raise {p0 : PImg} {live lo nd nd' : Nat} {allowed covered : List Nat} {p : PImg}
+    (h : CG p0 live allowed covered lo nd p) (h1 : nd ≤ nd') (h2 : nd' ≤ p.hdr.nextPage) (h3 : nd' ≤ p.bm) :
+    CG p0 live allowed covered lo nd' p :=
+  { h with lond := Nat.le_trans h.lond h1, np := h2, bmlo := h3, segKeys := fun s hs => Nat.lt_of_lt_of_le (h.segKeys s hs) h1,
            treeKeys := fun t ht => Nat.lt_of_lt_of_le (h.treeKeys t ht) h1 }
 
 /-! ### what the class guarantees -/
 
-theorem CG.pagerOK {p0 : PImg} {live nd : Nat} {allowed covered : List Nat} {p : PImg} {N : List Nat} {c : Nat}
-    (h : CG p0 live allowed covered nd p) (h0 : PagerOK N c p0) : PagerOK N c p where
+theorem CG.pagerOK {p0 : PImg} {live lo nd : Nat} {allowed covered : List Nat} {p : PImg} {N : List Nat} {c : Nat}
+    (h : CG p0 live allowed covered lo nd p) (h0 : PagerOK N c p0) (h2 : 2 ≤ lo) : PagerOK N c p where
   booted :=
     { init := by rw [h.hdr.init]; exact h0.booted.init
       len := Nat.le_trans h0.booted.len h.len
       nextPage := Nat.le_trans h0.booted.nextPage h.hdr.np
+      bm := Nat.le_trans h2 (Nat.le_trans h.lond h.bmlo)
       catRoot := by rw [h.hdr.catRoot]; exact h0.booted.catRoot
       cat := by rw [h.cat, h.idx]; exact h0.booted.cat }
   start := by rw [h.hdr.start, h.hdr.len]; exact h0.start
@@ -254,7 +258,7 @@ theorem treeFind_key {p : PImg} {k : Nat} {t : TreeImg} (h : treeFind p k = some
   exact ⟨h1, by simpa using h2⟩
 
 theorem StoreOK.segLt {T : List Tx} {cs : List CTx} {p : PImg} (h : StoreOK T cs p) :
-    ∀ k ∈ (scan cs).segs, k < p.hdr.nextPage := by
+    ∀ k ∈ (scan cs).segs, k < p.hdr.nextPage ∧ k < p.bm := by
   intro k hk
   have := h.segs k hk
   obtain ⟨s, hs⟩ := Option.isSome_iff_exists.mp this
@@ -262,21 +266,22 @@ theorem StoreOK.segLt {T : List Tx} {cs : List CTx} {p : PImg} (h : StoreOK T cs
   rw [← h2]
   exact h.segKeys s h1
 
-theorem CG.storeOK {p0 : PImg} {nd : Nat} {allowed covered : List Nat} {p : PImg} {T : List Tx} {cs : List CTx}
-    (h : CG p0 (scan cs).proot allowed covered nd p) (h0 : StoreOK T cs p0) (hal : allowed = allProps T)
+theorem CG.storeOK {p0 : PImg} {lo nd : Nat} {allowed covered : List Nat} {p : PImg} {T : List Tx} {cs : List CTx}
+    (h : CG p0 (scan cs).proot allowed covered lo nd p) (h0 : StoreOK T cs p0) (hlo : min p0.bm p0.hdr.nextPage ≤ lo)
+    (hal : allowed = allProps T)
     (h1 : ∀ q ∈ allProps T, q ∈ (logRuns (scan cs).ckpt cs).flatMap (·.props) ∨ q ∈ covered)
     (h2 : (scan cs).proot = 0 → covered = []) : StoreOK T cs p where
   segs := by
     intro k hk
-    rw [h.segOld k (h0.segLt k hk)]
+    rw [h.segOld k (by have := h0.segLt k hk; omega)]
     exact h0.segs k hk
-  segKeys := fun s hs => Nat.lt_of_lt_of_le (h.segKeys s hs) h.np
-  treeKeys := fun t ht => Nat.lt_of_lt_of_le (h.treeKeys t ht) h.np
+  segKeys := fun s hs => ⟨Nat.lt_of_lt_of_le (h.segKeys s hs) h.np, Nat.lt_of_lt_of_le (h.segKeys s hs) h.bmlo⟩
+  treeKeys := fun t ht => ⟨Nat.lt_of_lt_of_le (h.treeKeys t ht) h.np, Nat.lt_of_lt_of_le (h.treeKeys t ht) h.bmlo⟩
   edges := by
     have : (scan cs).segs.flatMap (segEdges p) = (scan cs).segs.flatMap (segEdges p0) := by
       apply flatMap_congr'
       intro k hk
-      simp only [segEdges, h.segOld k (h0.segLt k hk)]
+      simp only [segEdges, h.segOld k (by have := h0.segLt k hk; omega)]
     intro e; rw [this]; exact h0.edges e
   runProps := h0.runProps
   ptop := h0.ptop
